@@ -315,6 +315,7 @@ func Run(prop string) {
 		}
 	} else {
 		r = hv.NewRand(hv.Seed() ^ 0xC15)
+		roamUDP(r)
 		order := []string{"roam", "roam", "mixed", "control", "dup-reorder"}
 		n := hv.Scale(400, 8000)
 		for k := 0; k < n; k++ {
